@@ -28,7 +28,7 @@ def gen_case(seed, k):
         nid += 1
     cands = [n["id"] for n in kb["nodes"]]
     conn = [n["id"] for n in kb["nodes"] if n["kind"] != "atom"]
-    case = {"kb": kb, "source": rng.choice(conn), "query": rng.choice(cands if rng.random() < 0.3 else conn),
+    case = {"kb": kb, "source": rng.choice(conn), "source2": rng.choice(conn), "query": rng.choice(cands if rng.random() < 0.3 else conn),
             "interp_atoms": {a: Fr(rng.choice([0, 0, 8, 8, rng.randint(0, 8)]), 8) for a in atoms},
             "data_seed": rng.randrange(1 << 30)}
     return case
